@@ -28,14 +28,14 @@ CONSTANTS Vals,        \* 1..N
           DefaultVer   \* initial minimum relayer version (versions are integers, 0 = not a version)
 
 VARIABLES status, jailed, stake, deleg, unbondAt,           \* staking
-          accts, active, snaps, lastId, queue,              \* part (a)
+          accts, gen, active, snaps, lastId, queue,         \* part (a); gen = generation of a validator's account record (keys, traits)
           h, now,                                           \* block in progress, its time
           aliveUntil, grace, prev, jailLog, until, jhist,   \* part (b)
           minVer, sched,
           last                                              \* what the last action was and reported
 
 stakingVars == <<status, jailed, stake, deleg, unbondAt>>
-snapVars == <<accts, active, snaps, lastId, queue>>
+snapVars == <<accts, gen, active, snaps, lastId, queue>>
 aliveVars == <<h, aliveUntil, grace, prev, jailLog, until, jhist, minVer, sched>>
 vars == <<stakingVars, snapVars, aliveVars, now, last>>
 
@@ -84,6 +84,7 @@ Current == IF lastId \in DOMAIN snaps THEN snaps[lastId] ELSE NoSnap
 
 Members == {v \in Vals : ActiveIn(jailed, status, v) /\ active \subseteq accts[v]}
 NewSnap == [vals |-> Members, share |-> [v \in Members |-> stake[v]], accts |-> [v \in Members |-> accts[v]],
+            gen |-> [v \in Members |-> IF accts[v] = {} THEN 0 ELSE gen[v]],
             total |-> SumOver(stake, Members), chains |-> <<>>, at |-> now]
 
 Before(s, a, b) == s.share[a] < s.share[b] \/ (s.share[a] = s.share[b] /\ a < b)
@@ -95,6 +96,7 @@ Worthy(cur, new) ==
   \/ \E a, b \in new.vals : Before(cur, a, b) # Before(new, a, b)
   \/ \E v \in new.vals : 100 * Abs(cur.share[v] * new.total - new.share[v] * cur.total) >= cur.total * new.total
   \/ \E v \in new.vals : cur.accts[v] # new.accts[v]
+  \/ \E v \in new.vals : new.accts[v] # {} /\ cur.gen[v] # new.gen[v]      \* other address / other traits
 
 SeqSet(s) == {s[i] : i \in DOMAIN s}
 LatestOn(S, c) == LET I == {i \in DOMAIN S : c \in SeqSet(S[i].chains)} IN IF I = {} THEN 0 ELSE MaxOf(I)
@@ -116,30 +118,42 @@ Build(pf) ==
           /\ queue' = PublishAll(S, id, FALSE, active, queue, pf, now)
           /\ last' = [act |-> "Build", ok |-> TRUE]
      ELSE /\ UNCHANGED <<lastId, snaps, queue>> /\ last' = [act |-> "Build", ok |-> FALSE]
-  /\ UNCHANGED <<stakingVars, accts, active, aliveVars, now>>
+  /\ UNCHANGED <<stakingVars, accts, gen, active, aliveVars, now>>
 
 SetOnChain(id, c) ==
   /\ IF id \in DOMAIN snaps
      THEN /\ snaps' = [snaps EXCEPT ![id].chains = Append(@, c)] /\ last' = [act |-> "SetOnChain", ok |-> TRUE]
      ELSE /\ UNCHANGED snaps /\ last' = [act |-> "SetOnChain", ok |-> FALSE]
-  /\ UNCHANGED <<stakingVars, accts, active, lastId, queue, aliveVars, now>>
+  /\ UNCHANGED <<stakingVars, accts, gen, active, lastId, queue, aliveVars, now>>
 
 Publish(force, pf) ==
   /\ lastId \in DOMAIN snaps
   /\ queue' = PublishAll(snaps, lastId, force, active, queue, pf, now)
   /\ last' = [act |-> "Publish", ok |-> TRUE]
-  /\ UNCHANGED <<stakingVars, accts, active, snaps, lastId, aliveVars, now>>
+  /\ UNCHANGED <<stakingVars, accts, gen, active, snaps, lastId, aliveVars, now>>
 
 \* AddExternalChainInfo replaces the account list; only for bonded unjailed validators
 Register(v, S) ==
   /\ IF ActiveIn(jailed, status, v)
      THEN accts' = [accts EXCEPT ![v] = S] /\ last' = [act |-> "Register", ok |-> TRUE]
      ELSE UNCHANGED accts /\ last' = [act |-> "Register", ok |-> FALSE]
-  /\ UNCHANGED <<stakingVars, active, snaps, lastId, queue, aliveVars, now>>
+  /\ UNCHANGED <<stakingVars, gen, active, snaps, lastId, queue, aliveVars, now>>
+
+\* the account record is re-registered with a rotated key or other traits: same chains, another generation
+Rotate(v) ==
+  /\ IF ActiveIn(jailed, status, v)
+     THEN gen' = [gen EXCEPT ![v] = @ + 1] /\ last' = [act |-> "Rotate", ok |-> TRUE]
+     ELSE UNCHANGED gen /\ last' = [act |-> "Rotate", ok |-> FALSE]
+  /\ UNCHANGED <<stakingVars, accts, active, snaps, lastId, queue, aliveVars, now>>
+
+\* an attested balance report is written into the account record (x/evm attest_validator_balances): nothing modelled changes
+SetBalance(v, c) ==
+  /\ last' = [act |-> "SetBalance", ok |-> (c \in accts[v] /\ ActiveIn(jailed, status, v))]
+  /\ UNCHANGED <<stakingVars, snapVars, aliveVars, now>>
 
 Activate(c) ==
   /\ active' = active \cup {c} /\ last' = [act |-> "Activate", ok |-> TRUE]
-  /\ UNCHANGED <<stakingVars, accts, snaps, lastId, queue, aliveVars, now>>
+  /\ UNCHANGED <<stakingVars, accts, gen, snaps, lastId, queue, aliveVars, now>>
 
 -----------------------------------------------------------------------------
 (* staking actions *)
@@ -282,9 +296,9 @@ SetMinVersion(ver, target) ==
 InitWith(stk, acc, act, maxStatus) ==
   /\ stake = stk /\ deleg = [v \in Vals |-> 0] /\ jailed = [v \in Vals |-> FALSE]
   /\ status = maxStatus /\ unbondAt = [v \in Vals |-> 0]
-  /\ accts = acc /\ active = act
+  /\ accts = acc /\ active = act /\ gen = [v \in Vals |-> 0]
   /\ lastId = 1
-  /\ snaps = (1 :> [vals |-> Vals, share |-> stk, accts |-> acc, total |-> SumOver(stk, Vals), chains |-> <<>>, at |-> 0])
+  /\ snaps = (1 :> [vals |-> Vals, share |-> stk, accts |-> acc, gen |-> [v \in Vals |-> 0], total |-> SumOver(stk, Vals), chains |-> <<>>, at |-> 0])
   /\ queue = [c \in Chains |-> NoMsg]
   /\ h = 1 /\ now = 0
   /\ aliveUntil = [v \in Vals |-> 0] /\ grace = [v \in Vals |-> 0] /\ prev = {}
@@ -308,7 +322,7 @@ TypeOK == /\ \A v \in Vals : status[v] \in {"bonded", "unbonding", "unbonded"} /
 \* C10 -----------------------------------------------------------------------
 FaithfulTo(s, st, J, stk, acc, act) ==
   /\ s.vals = {v \in Vals : st[v] = "bonded" /\ ~J[v] /\ act \subseteq acc[v]}
-  /\ \A v \in s.vals : s.share[v] = stk[v] /\ s.accts[v] = acc[v]
+  /\ \A v \in s.vals : s.share[v] = stk[v] /\ s.accts[v] = acc[v] /\ s.gen[v] = (IF acc[v] = {} THEN 0 ELSE gen[v])
   /\ s.total = SumOver(s.share, s.vals)
 \* every snapshot stored by this step is faithful to the staking state it was built from
 FaithfulStep == \A id \in DOMAIN snaps' \ DOMAIN snaps : FaithfulTo(snaps'[id], status, jailed, stake, accts, active)
